@@ -37,7 +37,7 @@ func c01(c *vc.Ctx) {
 	reduced := reducedConfigs()
 	c.Rule = space.describe() + fmt.Sprintf(" + %d hand-written boundary programs of the anchored printer mechanisms (c01_extra.go) in every variant; configurations: all %d option subsets x indents for corpus and depth<=1 programs, %d representative configurations for layout-deviation and depth-2 programs; each parsed program is taken as parsed and, when syntax.Simplify changes it, also simplified; per (program, variant, simplify, configuration): Print succeeds (error iff Minify+SingleLine), output reparses in the variant, canonical dump (no positions/comments, documented cosmetic rewrites normalised) equals the original's; plus each Stmt, Command and call-argument Word of the tree printed alone (default, Minify, SingleLine) must reparse to itself; every divergence of a case is classified, an unclassified one wins; distinct = distinct canonical trees", len(c01Extra), len(fullConfigs), len(reduced))
 	c.Assumptions = []string{
-		"the cosmetic normaliser implements exactly the rewrites named in the property (backquotes, $[ ], brace loops, ${x}->$x under Minify, literals split by escaped newlines, <<- tabs, doubled trailing backslash)",
+		"the cosmetic normaliser implements exactly the rewrites named in the property (backquotes, $[ ], brace loops, ${x}->$x under Minify, literals split by escaped newlines, <<- tabs, doubled trailing backslash); the shared dump also treats the deprecated mksh brace form of case (printed as in/esac, like brace loops) and an absent versus empty here-document body as equal",
 		"a word printed alone is judged as the sole argument of a dummy command `cmd`",
 		"class predicates that use a counterfactual (same tree with the trigger removed, or same text plus a newline) run the real printer and parser again",
 	}
